@@ -7,7 +7,8 @@ from harness import gen
 from harness.framework import Suite
 
 PID = "C07"
-TRANSLATE_ALGO = ["AlgoNode", "AlgoSort", "AlgoRedirect"]   # regenerated on every run from tree_utils.py (redirect_tree, _sort_tree), tree.py / node.py (node handles)
+TRANSLATE_ALGO = ["AlgoNode", "AlgoSort", "AlgoRedirect", "AlgoCat"]   # regenerated on every run from tree_utils.py (redirect_tree, _sort_tree, cat_tree), tree.py / node.py (node handles)
+DRIVER_FILES = ["SwcVerif/Model/AlgoRunRedirect.lean", "SwcVerif/Model/AlgoRunCat.lean", "SwcVerif/Model/PyCat.lean"]
 LEAN_MODS = ["SwcVerif.Props.C07", "SwcVerif.Props.C07Cat", "SwcVerif.Props.C07Gen"]
 THEOREMS = [
     "C07.rootPath_spec", "C07.redirect_pids", "C07.redirect_edges", "C07.redirect_root", "C07.redirect_types", "C07.redirect_at_root",
@@ -412,7 +413,10 @@ class CatSuite(Suite):
                 f"p2={gen.ints(t2['pids'])} t2={gen.ints(t2['types'])} x2={col(t2, 0)} y2={col(t2, 1)} z2={col(t2, 2)} "
                 f"n1={case['n1']} n2={case['n2']} tr={int(case['translate'])}")
         xs = lambda i: gen.ints([int(round(p[i] * 128)) for p in res["xyz"]])
-        return [(line, f"{gen.ints(res['pid'])} / {gen.ints(pre)} / {xs(0)} / {xs(1)} / {xs(2)} / {gen.ints(res['type'])}")]
+        return [(line, f"{gen.ints(res['pid'])} / {gen.ints(pre)} / {xs(0)} / {xs(1)} / {xs(2)} / {gen.ints(res['type'])}"),
+                # the definition GENERATED from the current source of cat_tree (with the generated redirect_tree / node handles / _sort_tree),
+                # run on the same input: every column of the returned tree
+                ("g" + line, f"{gen.ints(res['id'])} / {gen.ints(res['pid'])} / {xs(0)} / {xs(1)} / {xs(2)} / {gen.ints(res['type'])}")]
 
     def oracle(self, case, res):
         try:
